@@ -504,6 +504,25 @@ class Gen:
             return ("local", r.choice(ls))
         return self.e_int(cx, d)
 
+    def safe(self, e):
+        """make a condition robust against absent operands (most of the time): x -> (x ?? literal)"""
+        k = e[0]
+        if k in ("field", "oos", "local") and self.rng.random() < 0.8:
+            return ("coal", e, ("int", self.rng.randint(0, 5)))
+        if k == "bin":
+            return ("bin", e[1], self.safe(e[2]), self.safe(e[3]))
+        if k in ("and", "or"):
+            return (k, self.safe(e[1]), self.safe(e[2]))
+        if k in ("not", "neg"):
+            return (k, self.safe(e[1]))
+        if k == "tern":
+            return ("tern", self.safe(e[1]), self.safe(e[2]), self.safe(e[3]))
+        return e
+
+    def e_cond(self, cx, d):
+        e = self.e_kind(cx, "bool", d)
+        return self.safe(e) if self.rng.random() < 0.85 else e
+
     def e_kind(self, cx, kind, d):
         # mostly well typed: a small fraction of the time hand back something of another kind
         if self.rng.random() < 0.06:
@@ -683,11 +702,11 @@ class Gen:
         if k == "assignsrec":
             return ("assignsrec", r.choice([("srec",), ("maplit", [(("str", "n"), self.e_int(cx, 1)), (("str", "c"), self.e_str(cx, 1))])]))
         if k == "if":
-            arms = [(self.e_kind(cx, "bool", 2), self.block(cx, depth - 1)) for _ in range(r.choice([1, 1, 2, 3]))]
+            arms = [(self.e_cond(cx, 2), self.block(cx, depth - 1)) for _ in range(r.choice([1, 1, 2, 3]))]
             els = self.block(cx, depth - 1) if r.random() < 0.5 else None
             return ("if", arms, els)
         if k == "cond":
-            c = self.e_bool(cx, 2) if r.random() < 0.8 else ("bin", "==", self.e_maybe_absent(cx), ("int", 1))
+            c = self.e_cond(cx, 2) if r.random() < 0.8 else ("bin", "==", self.e_maybe_absent(cx), ("int", 1))
             return ("cond", c, self.block(cx, depth - 1))
         if k in ("while", "do"):
             # counter pattern: the counter is a reserved name that the body never assigns except for the leading increment
